@@ -15,8 +15,12 @@ MANIFEST = dict(
     technique="Coq universal theorems on lexer/LR/tree-builder (tokens partition the text, tree leaves are fed tokens) and per-clause lemmas on transformer callbacks + kernel-checked slot-product reflection + extracted-model correspondence at token/tree/dict level",
     text=("Coq (Props/C02.v): [universal] for every accepted text the parse tree contains exactly tokens of the text at their recorded positions (nothing dropped, invented or moved before the transformer); "
           "clause lemmas universal in their arguments: int/float/boolean/hex-colour typing, quoted strings lose exactly their outer quotes, bare words verbatim, repeatable blocks appended under the plural key in source order and singleton blocks nested (last wins); "
+          "[universal, Proofs/C02U*.v] for EVERY text: the result is a block dict or a list of block dicts, every key of every dict is lower-case, every block dict carries a lower-case string __type__, nothing is None; "
+          "and, under a guard on the spelling of key tokens (no attribute spelled like a reserved name, a block name or a plural key - refuted without it: MAP LAYER ... END LAYERS 5 END), the documented contract in full "
+          "(__type__ first, plural keys hold non-empty lists of blocks of that type, singleton names hold one block, repeatable keywords lists, CONFIG / key-value blocks dicts of strings with lower-case keys, POINTS/PATTERN number pairs, PROJECTION strings) "
+          "together with the provenance of every leaf from one token of the text by the documented conversion; a keyword given twice keeps its last value, keys stand in first-occurrence order. "
           "[finite] every document of the schema-generated slot product loads, through the complete model, to exactly its intended structure (vm_compute, except the slots listed as C19 findings). "
-          "PARTIAL: the equality transform T = Spec.dict_of T for all well-formed trees is not proved as one theorem; acceptance and derivation choice for unbounded documents rest on the reflection domain plus correspondence. "
+          "PARTIAL: the two keyword-spelling conditions of the guard that hold of every real parse are assumed (no text-versus-type lemma for the lexer), and the equality transform T = Spec.dict_of T for all well-formed trees is not proved as one theorem; acceptance and derivation choice for unbounded documents rest on the reflection domain plus correspondence. "
           "The model is tied to the code by comparing token stream, parse tree (with meta) and dictionary of the extracted model with the real Lark/mappyfile objects on corpus files and generated documents; "
           "the hunter compares real loads with the intended structure of generated documents (depth <= 5, hundreds of objects, duplicates, repeated keys, multipart POINTS)."),
     design_ref="DESIGN.md 7/C02",
